@@ -4,7 +4,7 @@ from pathlib import Path
 
 PROPS_VO = "Props/C18.vo"
 EXTRA_VO = ["Model/C18Run.vo"]          # run / oracle are extracted; Props/C18.vo does not depend on them
-PROFILES = ["release", "debug"]         # debug: the usize products of the header panic; release: they wrap and are accepted
+PROFILES = ["release", "debug"]         # before 206cd69: debug panicked on the usize products of the header, release wrapped and accepted
 RULE = ("harness c18: the real write_to / read_from of the 30 serialisable layout types (+ Distribution) through "
         "std::io::Cursor, &[u8] and a 3-bytes-per-call reader (partial read_exact); per type 1-3 parameter sets; receivers of equal, "
         "larger, smaller and re-shaped capacity, with and without a smaller object read first; streams: untampered, "
@@ -20,7 +20,9 @@ ASSUMPTIONS = [
     "this makes the outcome of `vec![[0u8;32]; seed_len]` with a count from the stream independent of the machine; the unlimited behaviour "
     "is shown by the probe (abort on a 128 GiB request)",
     "receivers are allocated by the library (`alloc`): buffers are padded to 64 bytes and zero-initialised",
-    "round-trip theorems quantify over well-formed objects (header products do not overflow, payload within the buffer, Distribution canonical)",
+    "round-trip theorems quantify over well-formed objects (header products do not overflow, payload within the buffer, Distribution canonical, base2k/dsize non-zero)",
+    "composites (GGLWEToGGSWKey, BlindRotationKey, CircuitBootstrappingKey, BDDKey) are read in place: err_leaves_metadata holds per key and for the fields in front, "
+    "not for the whole bundle (known finding composite.partial_update_on_error; proposed repair work/proposed_fixes/C18_composites_staged.diff)",
 ]
 TRUSTED = ["the receiver state is read back through the implementation's own write_to (cross-checked against public accessors where they exist, "
            "and against the model's writer on every record)",
